@@ -283,15 +283,11 @@ def bounded(pr):
                 viol.append({'what': '%s -i %s: %s' % (name, fmt(listed)[:60], bad[:2]), 'replay': None})
     # selections given through the API as the regression tests do (loadOptions, then options.titrate_only = [...]): an EMPTY selection
     # and a selection of residues that do not exist titrate nothing
-    try:
-        import propka.lib as plib0
-        import propka.input as pinp0
-        from propka.parameters import Parameters as Par0
-        from propka.molecular_container import MolecularContainer as MC0
-        f0 = os.path.join(native.PDB_DIR, '3SGB-subset.pdb') if 'os' in dir() else None
-    except Exception:      # noqa
-        f0 = None
     import os
+    import propka.lib as plib0
+    import propka.input as pinp0
+    from propka.parameters import Parameters as Par0
+    from propka.molecular_container import MolecularContainer as MC0
     f0 = os.path.join(native.PDB_DIR, '3SGB-subset.pdb')
     for sel in ([], [('Z', 999, ' ')]):
         ev += 1
